@@ -126,12 +126,14 @@ impl<'c> Sk<'c> {
                 _ => Pat::Ignore,
             }
         };
-        // shapes: 0 single, 1 (x,y), 2 [x,y], 3 (x,(y,z)), 4 (x,y,z), 5 [x,y,z], 6 (x,[y,z]), 7 ([x,y],z), 8 ((x,y),z)
-        let n_shapes = if depth > 1 && self.b.inner_single { 1 } else if self.b.rich_patterns { 9 } else { 3 };
+        // shapes: 0 single, 1 (x,y), 2 [x,y], 3 (x,(y,z)), 4 (x,y,z), 5 [x,y,z], 6 (x,[y,z]), 7 ([x,y],z), 8 ((x,y),z), 9 (w,x,y,z), 10 [w,x,y,z], 11 (v,w,x,y,z)
+        let n_shapes = if depth > 1 && self.b.inner_single { 1 } else if self.b.rich_patterns { 12 } else { 3 };
         let shape = self.c.choose(n_shapes);
         let n_leaves = match shape {
             0 => 1,
             1 | 2 => 2,
+            9 | 10 => 4,
+            11 => 5,
             _ => 3,
         };
         // choose leaves without repeating a name: encode as choices among remaining options
@@ -153,7 +155,7 @@ impl<'c> Sk<'c> {
             leaves.push(k);
         }
         // arrays are homogeneous; tuple leaves may have different widths
-        let array_shape = shape == 2 || shape == 5;
+        let array_shape = shape == 2 || shape == 5 || shape == 10;
         let first_bits = self.bits();
         let mut widths: Vec<u16> = (0..n_leaves).map(|i| if array_shape || i == 0 { first_bits } else { self.bits() }).collect();
         if shape == 6 {
@@ -185,6 +187,8 @@ impl<'c> Sk<'c> {
                 Ty::Tuple(vec![Ty::array(tys[0].clone(), 2), tys[2].clone()]),
                 tuple(vec![Expr::Array(vec![tags[0].clone(), tags[1].clone()]), tags[2].clone()]),
             ),
+            9 | 11 => (Pat::Tuple(leaves.iter().map(|l| leaf(*l)).collect()), Ty::Tuple(tys.clone()), tuple(tags)),
+            10 => (Pat::Array(leaves.iter().map(|l| leaf(*l)).collect()), Ty::array(tys[0].clone(), 4), Expr::Array(tags)),
             8 => (
                 Pat::Tuple(vec![Pat::Tuple(vec![leaf(leaves[0]), leaf(leaves[1])]), leaf(leaves[2])]),
                 Ty::Tuple(vec![Ty::Tuple(vec![tys[0].clone(), tys[1].clone()]), tys[2].clone()]),
